@@ -176,7 +176,7 @@ pub fn print_impl_from<W: std::fmt::Write, T: FromTemplate>(
                             template,
                             &d.field_value,
                             ast,
-                            TypeResolve::UseTarget,
+                            TypeResolve::UseAlias,
                             try_from,
                         )?;
                         writeln!(w, "),")?;
